@@ -66,3 +66,71 @@ Definition rb_udp (p : slice) : string :=
 (* ---- Parse classification ---- *)
 Definition show_class (r : res (N * bool)) : string :=
   show_res (fun x => dec_of_N (fst x) ++ "/" ++ show_bool (snd x)) r.
+
+(* ---- IPv6 ---- *)
+Definition fmt_ip6 (v pl nh hop s d ok w : string) : string :=
+  sp (sp (sp (sp (sp (sp (sp (kv "v" v) (kv "plen" pl)) (kv "nh" nh)) (kv "hop" hop)) (kv "s" s)) (kv "d" d))
+     (kv "ok" ok)) (kv "pl" w).
+Definition rb_ip6 (p : slice) : string :=
+  fmt_ip6 (rN (ip6_version p)) (rN (ip6_payloadlen p)) (rN (ip6_nextheader p)) (rN (ip6_hoplimit p))
+          (rB (ip6_src p)) (rB (ip6_dst p)) (rT (ip6_is_valid p)) (rW p (ip6_payload p)).
+
+(* ---- ARP ---- *)
+Definition fmt_arp (ht pr hl pl op sm si dm di ok : string) : string :=
+  sp (sp (sp (sp (sp (sp (sp (sp (sp (kv "ht" ht) (kv "pr" pr)) (kv "hl" hl)) (kv "pl" pl)) (kv "op" op))
+     (kv "sm" sm)) (kv "si" si)) (kv "dm" dm)) (kv "di" di)) (kv "ok" ok).
+Definition rb_arp (p : slice) : string :=
+  fmt_arp (rN (arp_htype p)) (rN (arp_proto p)) (rN (arp_hlen p)) (rN (arp_plen p)) (rN (arp_op p))
+          (rB (arp_srcmac p)) (rB (arp_srcip p)) (rB (arp_dstmac p)) (rB (arp_dstip p)) (rT (arp_is_valid p)).
+
+(* ---- ICMP echo ---- *)
+Definition fmt_echo (t c ck id sq ok w : string) : string :=
+  sp (sp (sp (sp (sp (sp (kv "t" t) (kv "c" c)) (kv "ck" ck)) (kv "id" id)) (kv "seq" sq)) (kv "ok" ok)) (kv "data" w).
+Definition rb_echo (p : slice) : string :=
+  fmt_echo (rN (icmp_type p)) (rN (icmp_code p)) (rN (icmp_checksum p)) (rN (echo_id p)) (rN (echo_seq p))
+           (show_bool (echo_is_valid p)) (rW p (echo_data p)).
+
+(* ---- NDP NS / NA: the marshal functions return a fresh 32-byte slice: full bytes are shown ---- *)
+Definition show_olla (r : res (option bytes)) : string :=
+  show_res (fun o => match o with Some m => tok_of_bytes m | None => "nil" end) r.
+Definition fmt_na (t c r s o tg lla ok : string) : string :=
+  sp (sp (sp (sp (sp (sp (sp (kv "t" t) (kv "c" c)) (kv "R" r)) (kv "S" s)) (kv "O" o)) (kv "tgt" tg))
+     (kv "lla" lla)) (kv "ok" ok).
+Definition rb_na (p : slice) : string :=
+  fmt_na (rN (icmp_type p)) (rN (icmp_code p)) (rT (na_router p)) (rT (na_solicited p)) (rT (na_override p))
+         (rB (nd_target p)) (show_olla (na_target_lla p)) (show_bool (nd_is_valid p)).
+Definition fmt_ns (t c tg lla ok : string) : string :=
+  sp (sp (sp (sp (kv "t" t) (kv "c" c)) (kv "tgt" tg)) (kv "lla" lla)) (kv "ok" ok).
+Definition rb_ns (p : slice) : string :=
+  fmt_ns (rN (icmp_type p)) (rN (icmp_code p)) (rB (nd_target p)) (show_olla (ns_source_lla p))
+         (show_bool (nd_is_valid p)).
+(* a freshly allocated result: length, capacity, all bytes *)
+Definition show_fresh (r : res slice) : string :=
+  match r with
+  | Ok s => sp (sp (sp "ok" (dn (len s))) (dn (cap s))) (tok_of_bytes (view s))
+  | Err e => "err:" ++ show_err e
+  | Panic => "panic"
+  | Fuel => "fuel"
+  end.
+
+(* ---- DNS query ---- *)
+Fixpoint join_labels (ls : list bytes) : bytes :=
+  match ls with
+  | [] => []
+  | [l] => l
+  | l :: r => ((l ++ [46]) ++ join_labels r)%list
+  end.
+Definition show_question (r : res dns_question) : string :=
+  match r with
+  | Ok q => sp (sp (sp (kv "name" (tok_of_bytes (join_labels (q_labels q)))) (kv "qt" (dec_of_N (q_type q))))
+               (kv "qc" (dec_of_N (q_class q)))) (kv "end" (dn (q_end q)))
+  | Err ENotFound => "unmodelled"
+  | Err e => "err:" ++ show_err e
+  | Panic => "panic"
+  | Fuel => "fuel"
+  end.
+Definition fmt_dns (id fl qd an ns ar q : string) : string :=
+  sp (sp (sp (sp (sp (sp (kv "id" id) (kv "fl" fl)) (kv "qd" qd)) (kv "an" an)) (kv "ns" ns)) (kv "ar" ar)) q.
+Definition rb_dns (p : slice) : string :=
+  fmt_dns (rN (dns_tranid p)) (rN (dns_flags p)) (rN (dns_qdcount p)) (rN (dns_ancount p)) (rN (dns_nscount p))
+          (rN (dns_arcount p)) (show_question (dns_decode_question p)).
